@@ -164,3 +164,21 @@ func init() {
 		}
 	}
 }
+
+func init() {
+	debugCmds["dpaths"] = func(args []string) {
+		p, _ := loadProg("/repo", "")
+		fn := p.Func(args[0], args[1], args[2])
+		ps, err := feasiblePaths(fn, 5000)
+		fmt.Println(err)
+		for _, d := range ps {
+			var rs []string
+			if d.Ret != nil {
+				for _, r := range d.Ret.Results {
+					rs = append(rs, d.Env.Term(r).String())
+				}
+			}
+			fmt.Println("WHEN", d.CondString(), "\n   =>", d.EndKind, strings.Join(rs, " , "))
+		}
+	}
+}
